@@ -212,7 +212,6 @@ func (m *Muxer) WriteData(d *MuxerData) (int, error) {
 		pktLen := 1 + mpegTsPacketHeaderSize // sync byte + header
 		pkt := Packet{
 			Header: PacketHeader{
-				ContinuityCounter:         uint8(ctx.cc.inc()),
 				HasAdaptationField:        writeAf,
 				HasPayload:                false,
 				PayloadUnitStartIndicator: false,
@@ -247,6 +246,7 @@ func (m *Muxer) WriteData(d *MuxerData) (int, error) {
 		}
 
 		if pkt.Header.HasPayload {
+			pkt.Header.ContinuityCounter = uint8(ctx.cc.inc())
 			m.buf.Reset()
 			if d.PES.Header.StreamID == 0 {
 				d.PES.Header.StreamID = ctx.es.StreamType.ToPESStreamID()
@@ -287,6 +287,15 @@ func (m *Muxer) WriteData(d *MuxerData) (int, error) {
 			bytesWritten += n
 
 			payloadStart = false
+		} else {
+			// Adaptation field only packet: the continuity counter is not incremented
+			pkt.Header.ContinuityCounter = uint8(ctx.cc.get()) & 0xf
+			n, err = writePacket(m.bitsWriter, &pkt, m.packetSize)
+			if err != nil {
+				return bytesWritten, err
+			}
+
+			bytesWritten += n
 		}
 	}
 
